@@ -10,7 +10,10 @@ import (
 	"encoding/json"
 	"fmt"
 	"os"
+	"time"
 
+	"github.com/go-kid/ioc/component_definition"
+	"github.com/go-kid/ioc/container/support"
 	"github.com/go-kid/ioc/util/list"
 	"github.com/go-kid/ioc/util/sync2"
 )
@@ -27,19 +30,55 @@ type smResult struct {
 	entered bool // stopped inside f
 	rv      int
 	rok     bool
+	rvs     []int // RMetas: the values of the registered definitions, in the order GetMetas returned them
+	list    bool
+}
+
+// regComp is what the schedules register with the real component-definition registry: component v under the name k<k>.
+// NewMeta calls Naming() - from inside the function GetMetaOrRegister hands to LoadOrStoreFn - which is where the
+// schedule's gate sits.
+type regComp struct {
+	k, v int
+	gate func()
+}
+
+func (c *regComp) Naming() string {
+	if g := c.gate; g != nil {
+		c.gate = nil
+		g()
+	}
+	return fmt.Sprintf("k%d", c.k)
 }
 
 type smWorker struct {
 	cmd     chan smAct
 	res     chan smResult
 	gate    chan struct{}
-	pending bool
+	pending bool  // stopped inside f, waiting for the schedule's release
+	blocked bool  // the operation neither returned nor reached f: it waits for something another goroutine holds
+	act     smAct // the operation in flight
 }
+
+// how long the scheduler waits for an operation to return or to reach f before it records it as blocked.  A blocked
+// operation stays in the history as invoked-but-not-returned; its return is recorded when it is observed (after a later
+// release).  A slow goroutine mistaken for a blocked one only widens its interval in the history, which is sound.
+// Once an operation has been seen blocked the implementation is known to be a blocking one and later schedules wait less.
+var smBlockWait = 300 * time.Millisecond
 
 func runSchedule(acts []smAct) []map[string]any {
 	m := sync2.New[int, int]()
 	set := list.NewConcurrentSets()
 	gset := list.NewGenericConcurrentSets[int]()
+	reg := support.DefaultDefinitionRegistry()
+	valOf := func(mt *component_definition.Meta) int {
+		if mt == nil {
+			return 0
+		}
+		if c, ok := mt.Raw.(*regComp); ok {
+			return c.v
+		}
+		return -1
+	}
 	workers := map[int]*smWorker{}
 	worker := func(g int) *smWorker {
 		if w, ok := workers[g]; ok {
@@ -68,6 +107,27 @@ func runSchedule(acts []smAct) []map[string]any {
 						<-w.gate
 						return a.V
 					})
+				case "RGetOrReg":
+					c := &regComp{k: a.K, v: a.V}
+					c.gate = func() {
+						w.gate = make(chan struct{})
+						w.res <- smResult{entered: true}
+						<-w.gate
+					}
+					mt := reg.GetMetaOrRegister(fmt.Sprintf("k%d", a.K), c)
+					r.rv = valOf(mt)
+					r.rok = mt == nil || mt.Raw != any(c) // loaded: somebody else's definition came back
+				case "RReg":
+					reg.RegisterMeta(component_definition.NewMeta(&regComp{k: a.K, v: a.V}))
+					r.rok = true
+				case "RByName":
+					mt := reg.GetMetaByName(fmt.Sprintf("k%d", a.K))
+					r.rv, r.rok = valOf(mt), mt != nil
+				case "RMetas":
+					r.list, r.rok, r.rvs = true, true, []int{}
+					for _, mt := range reg.GetMetas() {
+						r.rvs = append(r.rvs, valOf(mt))
+					}
 				case "Put":
 					set.Put(fmt.Sprint(a.K))
 					gset.Put(a.K)
@@ -88,42 +148,121 @@ func runSchedule(acts []smAct) []map[string]any {
 		return w
 	}
 	var out []map[string]any
+	// take what a worker reports: it returned (done) or it is now inside f (pending)
+	settle := func(w *smWorker, r smResult, ev map[string]any) {
+		w.blocked = false
+		if r.entered {
+			w.pending = true
+			ev["done"] = false
+			ev["rv"], ev["rok"] = 0, false
+		} else {
+			w.pending = false
+			ev["done"] = true
+			ev["rv"], ev["rok"] = r.rv, r.rok
+			if r.list {
+				ev["rv"] = r.rvs
+			}
+		}
+	}
+	// after every action: has a blocked operation moved on?
+	pollBlocked := func(wait time.Duration) {
+		for g := 1; g <= 16; g++ {
+			w, ok := workers[g]
+			if !ok || !w.blocked {
+				continue
+			}
+			select {
+			case r := <-w.res:
+				ev := map[string]any{"a": "unblock", "g": g, "op": w.act.Op, "k": w.act.K, "v": w.act.V}
+				settle(w, r, ev)
+				out = append(out, ev)
+			case <-time.After(wait):
+			}
+		}
+	}
 	for _, a := range acts {
 		w := worker(a.G)
 		ev := map[string]any{"a": a.A, "g": a.G, "op": a.Op, "k": a.K, "v": a.V}
 		switch a.A {
 		case "start":
-			if w.pending {
-				ev["skipped"] = true
-				break
+			if w.pending || w.blocked {
+				continue // the goroutine is still busy (the real containers deviated from the schedule): nothing happens
 			}
+			w.act = a
 			w.cmd <- a
-			r := <-w.res
-			if r.entered {
-				w.pending = true
-				ev["done"] = false
+			select {
+			case r := <-w.res:
+				settle(w, r, ev)
+			case <-time.After(smBlockWait):
+				w.blocked = true
+				ev["done"], ev["blocked"] = false, true
 				ev["rv"], ev["rok"] = 0, false
-			} else {
-				ev["done"] = true
-				ev["rv"], ev["rok"] = r.rv, r.rok
 			}
 		case "release":
 			if !w.pending {
-				ev["skipped"] = true
-				break
+				continue
 			}
+			// the operation that is released is the one in flight (the schedule's own record of it differs once the real
+			// containers have deviated from the schedule)
+			ev["op"], ev["k"], ev["v"] = w.act.Op, w.act.K, w.act.V
 			close(w.gate)
-			r := <-w.res
-			w.pending = false
-			ev["done"] = true
-			ev["rv"], ev["rok"] = r.rv, r.rok
+			select {
+			case r := <-w.res:
+				settle(w, r, ev)
+			case <-time.After(smBlockWait):
+				// f has returned but the operation has not: from here on it is blocked like any other
+				w.pending, w.blocked = false, true
+				ev["done"], ev["blocked"] = false, true
+				ev["rv"], ev["rok"] = 0, false
+			}
 		}
 		out = append(out, ev)
+		pollBlocked(smBlockWait / 6)
 	}
-	for _, w := range workers {
-		if w.pending {
+	// drain: let everything that is inside f return, then wait for what was blocked
+	for round := 0; round < 64; round++ {
+		busy := false
+		for g := 1; g <= 16; g++ {
+			w, ok := workers[g]
+			if !ok || !w.pending {
+				continue
+			}
+			busy = true
+			ev := map[string]any{"a": "release", "g": g, "op": w.act.Op, "k": w.act.K, "v": w.act.V, "drain": true}
 			close(w.gate)
-			<-w.res
+			select {
+			case r := <-w.res:
+				settle(w, r, ev)
+			case <-time.After(smBlockWait):
+				w.pending, w.blocked = false, true
+				ev["done"], ev["blocked"] = false, true
+				ev["rv"], ev["rok"] = 0, false
+			}
+			out = append(out, ev)
+		}
+		pollBlocked(smBlockWait)
+		stillBlocked := false
+		for _, w := range workers {
+			stillBlocked = stillBlocked || w.blocked || w.pending
+		}
+		if !stillBlocked {
+			break
+		}
+		if !busy {
+			pollBlocked(5 * time.Second)
+			break
+		}
+	}
+	for _, ev := range out {
+		if b, _ := ev["blocked"].(bool); b {
+			smBlockWait = 40 * time.Millisecond
+		}
+	}
+	for g, w := range workers {
+		if w.blocked || w.pending {
+			// an operation that never returns although nothing else is in flight: recorded, the goroutine is abandoned
+			out = append(out, map[string]any{"a": "stuck", "g": g, "op": w.act.Op, "k": w.act.K, "v": w.act.V, "done": false, "rv": 0, "rok": false})
+			continue
 		}
 		close(w.cmd)
 	}
